@@ -43,9 +43,9 @@ def in_c01_domain(s, allow_empty_axis=False, any_list_names=False):
                     kinds.add('null')
                 elif isinstance(v, bool):
                     kinds.add('bool')
-                elif isinstance(v, int):
+                elif isinstance(v, (int, np.integer)):
                     kinds.add('int')
-                elif isinstance(v, float):
+                elif isinstance(v, (float, np.floating)):
                     kinds.add('float')
                 elif isinstance(v, str):
                     kinds.add('str')
@@ -57,7 +57,8 @@ def in_c01_domain(s, allow_empty_axis=False, any_list_names=False):
                         return 'list metadata outside the reserved form'
                 else:
                     return 'metadata kind %s' % type(v).__name__
-            if kinds == {'list', 'null'}:
+            if kinds == {'list', 'null'} or (kinds == {'null'} and
+                                             k in RESERVED_LIST):
                 kinds = {'list'}        # unknown for some ids: representable
             elif 'null' in kinds:
                 return 'null metadata value outside a list category'
@@ -361,11 +362,30 @@ def gen_case(ctx, index, empty_axis_ok=False):
         reloaded_group_metadata(ctx, t, index, ctx.id, desc)
         return t, src, desc, cfg, path, r
     spec = gen.gen_spec(r, max_n=7, max_m=7, allow_empty_text=True)
+    # numeric metadata handed over as numpy scalars (what pandas / numpy code
+    # produces): the same numbers
+    if r.random() < .15:
+        for md in (spec.obs_md, spec.samp_md):
+            for k in sorted({k for e in (md or []) for k, v in e.items()
+                             if isinstance(v, (int, float)) and
+                             not isinstance(v, bool)}, key=str):
+                vals = [e.get(k) for e in md]
+                if not all(isinstance(v, (int, float)) and
+                           not isinstance(v, bool) for v in vals):
+                    continue
+                for e in md:
+                    v = e[k]
+                    e[k] = np.int64(v) if isinstance(v, int) and \
+                        abs(v) < 2 ** 62 else np.float64(v)
+                ctx.count('numpy_scalar_metadata_categories')
     # a list-valued category may be unknown (None) for some of the ids
     for md in (spec.obs_md, spec.samp_md):
         if md and len(md) > 1 and r.random() < .15:
             for k in [k for k, v in md[0].items() if isinstance(v, list)]:
-                for q in r.sample(range(len(md)), r.randint(1, len(md) - 1)):
+                # (now and then for every id)
+                hi = len(md) if k in RESERVED_LIST and r.random() < .2 \
+                    else len(md) - 1
+                for q in r.sample(range(len(md)), r.randint(1, hi)):
                     md[q][k] = None
                 ctx.count('list_category_with_null_entries')
     if empty_axis_ok and r.random() < .2:
